@@ -119,6 +119,22 @@ impl<K, V> SmallMap<K, V> {
         }
     }
 
+    /// Verification hook: `None` if there is no index; otherwise the number of
+    /// index slots and, for each entry position `i`, the position the index
+    /// yields when searched with entry `i`'s stored hash and position (`-1` if absent).
+    #[cfg(starlark_verif)]
+    pub fn verif_index_snapshot(&self) -> Option<(usize, Vec<i64>)> {
+        let index = self.index.as_ref()?;
+        let mut v = Vec::new();
+        for (i, (k, _)) in self.entries.iter_hashed().enumerate() {
+            match index.find(k.hash().promote(), |j| *j == i) {
+                Some(j) => v.push(*j as i64),
+                None => v.push(-1),
+            }
+        }
+        Some((index.len(), v))
+    }
+
     /// Verify that the map is internally consistent.
     #[cfg(test)]
     fn assert_invariants(&self)
